@@ -21,18 +21,20 @@ Definition rv_expectation (d : instr_desc) : option (string * list vsel) :=
   if is_rv32_word d then rv_expect (mnemonic d) (List.length (d_ops d)) else None.
 
 (* the bytes ppci emits decode (independent decoder) to the operation and operands ppci prints *)
+Definition agrees_with (e : string * list vsel) (d : instr_desc) (ops : list Z) : bool :=
+  match encode_instr d ops with
+  | Ok bytes =>
+      match RV32Decode.decode bytes with
+      | Some (m, l) => String.eqb m (fst e) && list_eqb l (map (apply_vsel ops) (snd e))
+      | None => false
+      end
+  | _ => false
+  end.
+
 Definition rv_agrees (d : instr_desc) (ops : list Z) : bool :=
   match rv_expectation d with
   | None => true
-  | Some (mn, view) =>
-      match encode_instr d ops with
-      | Ok bytes =>
-          match RV32Decode.decode bytes with
-          | Some (m, l) => String.eqb m mn && list_eqb l (map (apply_vsel ops) view)
-          | None => false
-          end
-      | _ => false
-      end
+  | Some e => agrees_with e d ops
   end.
 
 (* ---- the finite operand domain ---- *)
@@ -72,11 +74,37 @@ Fixpoint imm_sweeps (pre : list operand) (post : list operand) (pick : operand -
        end) ++ imm_sweeps (pre ++ [o]) r pick
   end.
 
+(* register numbers whose 5-bit patterns are 00000 00001 00010 00101 01010 10101 11111 (if present) *)
+Definition reg_some (o : operand) : list Z :=
+  match o_kind o with
+  | KReg nums => filter (fun n => existsb (Z.eqb n) [0; 1; 2; 5; 10; 21; 31]) nums
+  | _ => [o_sub o * o_div o]
+  end.
+
+Fixpoint reg_sweeps (pre : list operand) (post : list operand) (pick : operand -> Z) : list (list Z) :=
+  match post with
+  | [] => []
+  | o :: r =>
+      (match o_kind o with
+       | KReg nums => map (fun v => map pick pre ++ v :: map pick r) nums
+       | _ => []
+       end) ++ reg_sweeps (pre ++ [o]) r pick
+  end.
+
+(* the bounded operand domain of a class:
+   - every register operand over ALL its registers, the other operands at their first / at their last value;
+   - all combinations of the seven pattern registers;
+   - every immediate operand over ALL its values (<= 13 bits; wider: boundary family), registers first / last *)
 Definition rv_domain (d : instr_desc) : list (list Z) :=
-  product (map reg_all (d_ops d)) ++ imm_sweeps [] (d_ops d) reg_first ++ imm_sweeps [] (d_ops d) reg_last.
+  product (map reg_some (d_ops d)) ++
+  reg_sweeps [] (d_ops d) reg_first ++ reg_sweeps [] (d_ops d) reg_last ++
+  imm_sweeps [] (d_ops d) reg_first ++ imm_sweeps [] (d_ops d) reg_last.
 
 Definition rv_class_ok (d : instr_desc) : bool :=
-  forallb (fun ops => in_range d ops && rv_agrees d ops) (rv_domain d).
+  match rv_expectation d with
+  | None => true
+  | Some e => forallb (fun ops => in_range d ops && agrees_with e d ops) (rv_domain d)
+  end.
 
 Fixpoint check_from (n : nat) (bad : list nat) (l : list instr_desc) : bool :=
   match l with
@@ -106,8 +134,9 @@ Theorem rv_reference_bounded n d :
 Proof.
   intros Hn Hb ops Hin.
   pose proof (check_from_spec _ _ 0%nat n d rv_table_checked Hn Hb) as H.
-  unfold rv_class_ok in H. rewrite forallb_forall in H. specialize (H ops Hin).
-  apply andb_prop in H. exact H.
+  unfold rv_class_ok in H. unfold rv_agrees. destruct (rv_expectation d) as [e|] eqn:Ee.
+  - rewrite forallb_forall in H. specialize (H ops Hin). apply andb_prop in H. exact H.
+  - split; [|reflexivity]. exact (rv_uncovered_in_range d ops Ee Hin).
 Qed.
 
 (* ... and every exported disagreement is a real one: in-range operands on which the reference decoder reads
